@@ -51,7 +51,7 @@ elif not m:
 # 5. registry
 p = '/verif/harness/src/props/mod.rs'; s = open(p).read()
 if f"pub mod {low};" not in s:
-    mods = sorted(set(re.findall(r'pub mod (c\d+);', s)) | {low})
+    mods = sorted(set(re.findall(r"pub mod (c\d+);", s)) | {low})
     body = "use crate::core::Property;\n\n" + "".join(f"pub mod {m};\n" for m in mods)
     body += "\npub fn all() -> Vec<&'static dyn Property> {\n    vec![" + ", ".join(f"&{m}::{m.upper()}" for m in mods) + "]\n}\n\n"
     body += "pub fn lookup(id: &str) -> Option<&'static dyn Property> {\n    all().into_iter().find(|p| p.id() == id)\n}\n"
